@@ -365,3 +365,87 @@ def run_power(ctx) -> RuleResult:
         raise AnalysisError("power: scalar-exponent loop not recognised")
     result.floor = 3
     return result
+
+
+def run_carrier(ctx) -> RuleResult:
+    result = RuleResult(
+        "R-CARRIER",
+        "call(): the arrays that carry the broadcast shape and seed every term (numpy.ones / numpy.zeros) "
+        "are created with the platform integer dtype, so that narrow argument dtypes are promoted before "
+        "factors of different indeterminates are multiplied",
+    )
+    modname = "numpoly.poly_function.call"
+    module = ctx.repo.module(modname)
+    func = ctx.repo.function(modname, "call")
+    n = 0
+    for call in calls_in(func):
+        name = ctx.dotted(module, call.func)
+        if name not in ("numpy.ones", "numpy.zeros"):
+            continue
+        n += 1
+        dtype = kwarg(call, "dtype") or (call.args[1] if len(call.args) > 1 else None)
+        text = U(dtype) if dtype is not None else "float (default)"
+        ok = dtype is not None and text in ("int", "numpy.int64", "'i8'", '"i8"', "numpy.int_", "numpy.intp", "'int64'", '"int64"')
+        result.ob(f"call: {U(call)[:60]} carries the integer dtype", ok, module.loc(call), text)
+        if not ok:
+            result.add(Finding(
+                "R-CARRIER", module, "call", call,
+                f"the broadcast carrier {U(call)[:60]} has dtype {text}: multiplying it into the terms no longer "
+                f"promotes narrow argument dtypes (int8, float16, ...), so the value depends on the type carrying an argument"))
+    if n < 2:
+        raise AnalysisError("call: broadcast carriers (numpy.ones / numpy.zeros) not recognised")
+    result.floor = 2
+    return result
+
+
+def run_prodaxes(ctx) -> RuleResult:
+    result = RuleResult(
+        "R-PRODAXES",
+        "prod over an axis sequence: each axis is reduced and its singleton re-inserted at the same position "
+        "within one traversal of the same sequence",
+    )
+    modname = "numpoly.array_function.prod"
+    module = ctx.repo.module(modname)
+    func = ctx.repo.function(modname, "prod")
+    n = 0
+    seen = set()
+    for path in ctx.paths_auto(module, func):
+        reduce_src = []
+        insert_src = []
+        for step in path:
+            for raw in step_exprs(step):
+                for node in ast.walk(raw):
+                    if isinstance(node, ast.Call) and (ctx.dotted(module, node.func) or "").endswith("._prod"):
+                        axis = kwarg(node, "axis") or (node.args[1] if len(node.args) > 1 else None)
+                        if axis is not None:
+                            exp = step.expand(axis)
+                            if is_S(exp, "elem"):
+                                reduce_src.append(exp)
+                    if isinstance(node, ast.BinOp) and isinstance(node.op, ast.Mult) and "slice(None)" in U(node.left):
+                        exp = step.expand(node.right)
+                        if is_S(exp, "elem"):
+                            insert_src.append(exp)
+        if not reduce_src or not insert_src:
+            continue
+        key = (tuple(_txt(e) for e in reduce_src), tuple(_txt(e) for e in insert_src))
+        if key in seen:
+            continue
+        seen.add(key)
+        n += 1
+        same_seq = [_txt(e.args[0]) for e in reduce_src] == [_txt(e.args[0]) for e in insert_src]
+        same_iter = [U(e.args[1]) for e in reduce_src] == [U(e.args[1]) for e in insert_src]
+        ok = same_seq and same_iter
+        result.ob("each reduced axis is re-inserted in the same iteration of the same sequence", ok,
+                  module.loc(func), f"{key[0][:1]} / {key[1][:1]}")
+        if not ok:
+            result.add(Finding(
+                "R-PRODAXES", module, "prod", func,
+                f"axes are reduced following {key[0][0][:60]} but the singleton axes are re-inserted following "
+                f"{key[1][0][:60]}" + ("" if same_seq else " (different sequences)")
+                + (" in a separate traversal" if same_seq and not same_iter else "")
+                + ": for a non-ascending axis tuple with keepdims the result has its axes in the wrong places",
+                derivation=describe_path(path), construct="prod: axis sequence reduce/re-insert"))
+    if n == 0:
+        raise AnalysisError("prod: axis-sequence branch not recognised")
+    result.floor = 1
+    return result
